@@ -14,7 +14,12 @@ func init() { vh.Register("C13", runC13) }
 
 // ---- direct oracle: compile(P) equals compile(e(P)) restricted to the elements of compile(P)
 
-type c13oracle struct{ out []violation }
+type c13oracle struct {
+	out []violation
+	// the instances of the recorded finding in this pair (j5sgen.EmptyEnumAppends): full name of
+	// an enum that had no options -> the option ending in UNSPECIFIED appended to it first
+	emptyEnumAppends map[string]string
+}
 
 func (o *c13oracle) fail(sig, clause, got, want string) {
 	o.out = append(o.out, violation{Sig: sig, Clause: clause, Got: got, Want: want})
@@ -27,15 +32,27 @@ func (o *c13oracle) enum(at string, a, b *DEnum) {
 	}
 	for i, v := range a.Vals {
 		if b.Vals[i] != v {
-			if i == 0 && len(a.Vals) == 1 && b.Vals[0].Num == 0 && strings.HasSuffix(b.Vals[0].Name, "UNSPECIFIED") {
-				// the enum had no options: the appended option is its first, and a first option
-				// ending in UNSPECIFIED is taken as the zero value
+			// the recorded finding, and nothing else: the SOURCE enum had no options (so the
+			// old enum is exactly [<PREFIX>UNSPECIFIED = 0]), the first option the edits appended
+			// to it ends in UNSPECIFIED, and the new zero value is exactly that option under the
+			// enum's prefix (a first option ending in UNSPECIFIED is taken as the zero value).
+			// Any other renaming / renumbering of an enum value gets the general signature.
+			if opt, ok := o.emptyEnumAppends[at]; ok && i == 0 && len(a.Vals) == 1 && v.Num == 0 &&
+				strings.HasSuffix(v.Name, "UNSPECIFIED") && b.Vals[0] == (DVal{Name: prefixedOption(strings.TrimSuffix(v.Name, "UNSPECIFIED"), opt), Num: 0}) {
 				o.fail("C13 option ending in UNSPECIFIED appended to an enum without options replaces the implicit zero value", "enum values (name, number) unchanged", fmt.Sprintf("%s: %v", at, b.Vals[0]), fmt.Sprint(v))
 				continue
 			}
 			o.fail("C13 enum value (name, number) changed by an append edit", "enum values (name, number) unchanged", fmt.Sprintf("%s: %v", at, b.Vals[i]), fmt.Sprint(v))
 		}
 	}
+}
+
+// enumBuilder.addValue: the prefix is put in front unless the option already carries it
+func prefixedOption(pfx, opt string) string {
+	if strings.HasPrefix(opt, pfx) {
+		return opt
+	}
+	return pfx + opt
 }
 
 func (o *c13oracle) msg(at string, a, b *DMsg) {
@@ -171,6 +188,7 @@ func runC13(cfg *vh.Config) error {
 	for i := 0; i < n; i++ {
 		gcfg := j5sgen.DefaultConfig()
 		gcfg.MaxFiles, gcfg.MaxPackages = 2, 2
+		gcfg.Entities = false // the edit addresses index the declared root elements (entities are C02's)
 		switch i % 4 {
 		case 0:
 			gcfg.Imports, gcfg.Services, gcfg.Topics, gcfg.PFiles, gcfg.MaxFiles = false, false, false, false, 1
@@ -198,6 +216,9 @@ func runC13(cfg *vh.Config) error {
 		in := map[string]any{"package": pkg, "before": t0, "after": t1, "edits": edits}
 		for _, e := range edits {
 			res.Count("edit_" + e.Kind)
+			if e.Note != "" {
+				res.Count("edit_" + e.Kind + "_" + e.Note)
+			}
 		}
 		res.Count("pairs")
 		if g0.panic != nil || g1.panic != nil {
@@ -214,7 +235,7 @@ func runC13(cfg *vh.Config) error {
 		default:
 			res.Count("both_compiled")
 			distinct.Add(fmt.Sprint(t0, edits))
-			for _, v := range (&c13oracle{}).files(g0.files, g1.files) {
+			for _, v := range (&c13oracle{emptyEnumAppends: j5sgen.EmptyEnumAppends(b0, pkg, edits)}).files(g0.files, g1.files) {
 				res.Fail(vh.Failure{Case: i, Stream: "edit", Sig: v.Sig, Clause: v.Clause, Input: in, Got: v.Got, Want: v.Want})
 			}
 		}
